@@ -3,7 +3,13 @@
 Breadth-first search over operation histories on the real `eko.io.struct.EKO`, stepped in
 lock-step with a dictionary reference model that is made persistent on close. After the last
 operation of every history the complete visible content (keys, values, content after
-close + re-read) is compared with the model.
+close + re-read, there again key by key) is compared with the model.
+
+The model is a plain dict; approximate lookup is modelled by the documented inequality
+|q - k| <= atol + rtol |k| at equal nf, with the default or the passed tolerances. Where the
+model says "an error", the documented class is demanded (see `_families`): a lookup error for an
+absent key, ValueError for an ambiguous approximate lookup, ReadOnlyOperator for a write on a
+read-only store.
 """
 
 import math
@@ -19,15 +25,38 @@ ID = "C37"
 LEVEL = "model_checking"
 TECHNIQUE = "explicit-state BFS over operation histories on the real EKO store vs dictionary reference model"
 LEVEL_TEXT = (
-    "every operation history up to the depth bound over 3 keys x 3 values x 9 operation kinds is "
-    "replayed on the real store; each observation and the full visible + persisted content are "
-    "compared with a persistent-dict model; states deduplicated on (mode, model, disk files, cache flags)"
+    "every operation history up to the depth bound over 3 keys x 3 values x 13 operation kinds is "
+    "replayed on the real store; each observation (values, and for the three documented refusals -- absent key, "
+    "ambiguous approximate lookup, write on a read-only store -- the documented error class) and the full visible + "
+    "persisted content are compared with a persistent-dict model; approximate lookup is probed on both sides of its "
+    "default tolerance and with caller-supplied rtol / atol; states deduplicated on (mode, model, disk files, cache flags)"
 )
 LEVEL_NOTE = "bounded depth (quick 3, thorough 5); keys/values limited to the alphabet; trusted: the 40-line dict model"
 FLOOR_NONTRIVIAL = 50
 
 K = [(10.0, 4), (10.0 * (1 + 2e-7), 4), (20.0, 5)]  # K1 lies within approx tolerance of K0
-QUERIES = [(10.0, 4), (10.0 * (1 + 6e-7), 4), (20.0, 4), (20.000001, 5)]
+QUERIES = [
+    (10.0, 4),
+    (10.0 * (1 + 6e-7), 4),
+    (20.0, 4),
+    (20.000001, 5),
+    (10.0 * (1 + 3e-6), 4),  # outside the default tolerance (1e-6) of K0 and K1, inside NumPy's default (1e-5): always nothing
+    (10.0 * (1 - 9e-7), 4),  # within 1e-6 of K0 (9e-7), outside 1e-6 of K1 (1.1e-6): unique even when both are stored
+    (10.0, 5),  # the scale of K0 exactly, another nf: always nothing
+]
+# approximate lookups with tolerances passed by the caller: [query, rtol, atol]
+TOL_QUERIES = [
+    [(10.0 * (1 + 6e-7), 4), 1e-8, 0.0],  # the default tolerance would hit K0 and K1; this one hits nothing
+    [(20.2, 5), 2e-2, 0.0],  # 1 % away from K2: hit only with the passed rtol
+    [(10.0 + 5e-4, 4), 0.0, 1e-3],  # absolute tolerance only: K0 and K1 both within 1e-3
+    [(10.0, 4), 1e-7, 0.0],  # K0 exactly; K1 (2e-7 away) is outside the passed rtol: unique even when both are stored
+]
+DEFAULT_RTOL, DEFAULT_ATOL = 1e-6, 1e-10  # EKO.approx signature
+
+
+def _close(current, q, rtol, atol):
+    """Keys of `current` within tolerance of q, from the documented inequality |q - k| <= atol + rtol |k| at equal nf."""
+    return [k for k in current if K[k][1] == q[1] and abs(q[0] - K[k][0]) <= atol + rtol * abs(K[k][0])]
 
 
 def _val(i):
@@ -55,6 +84,10 @@ def alphabet():
     for q in range(len(QUERIES)):
         ops.append(["approx", q])
     ops += [["list"], ["items"], ["unload_all"], ["reopen", "ro"], ["reopen", "rw"]]
+    for q in range(len(TOL_QUERIES)):
+        ops.append(["approx_tol", q])
+    # `del eko.operators` (how the runner flushes), close through the context manager, copy to another archive
+    ops += [["del_operators"], ["reopen", "ro", "with"], ["reopen", "rw", "with"], ["deepcopy"]]
     return ops
 
 
@@ -69,29 +102,30 @@ class Model:
         kind = op[0]
         if kind == "set":
             if self.mode == "ro":
-                return ("raises",)
+                return ("raises", "readonly")
             self.current[op[1]] = op[2]
             return ("ok",)
         if kind in ("get", "ctxget"):
             if op[1] in self.current:
                 return ("value", self.current[op[1]])
-            return ("raises",)
-        if kind in ("unload", "unload_all"):
+            return ("raises", "absent")
+        if kind in ("unload", "unload_all", "del_operators"):
             return ("any",)  # no visible effect; raising on an absent key would be acceptable too
         if kind == "in":
             return ("bool", op[1] in self.current)
-        if kind == "approx":
-            q = QUERIES[op[1]]
-            close = [
-                k
-                for k in self.current
-                if K[k][1] == q[1] and abs(q[0] - K[k][0]) <= 1e-10 + 1e-6 * abs(K[k][0])
-            ]
+        if kind in ("approx", "approx_tol"):
+            if kind == "approx":
+                q, rtol, atol = QUERIES[op[1]], DEFAULT_RTOL, DEFAULT_ATOL
+            else:
+                q, rtol, atol = TOL_QUERIES[op[1]]
+            close = _close(self.current, q, rtol, atol)
             if len(close) == 1:
                 return ("key", close[0])
             if not close:
                 return ("none",)
-            return ("raises",)
+            return ("raises", "ambiguous")
+        if kind == "deepcopy":
+            return ("copy", sorted(self.current), sorted(self.current.items()))
         if kind == "list":
             return ("keys", sorted(self.current))
         if kind == "items":
@@ -161,6 +195,34 @@ class Impl:
             if kind == "unload_all":
                 e.unload()
                 return ("any",)
+            if kind == "del_operators":
+                del e.operators
+                return ("any",)
+            if kind == "approx_tol":
+                q, rtol, atol = TOL_QUERIES[op[1]]
+                r = e.approx(tuple(q), rtol=rtol, atol=atol)
+                if r is None:
+                    return ("none",)
+                return ("key", _kidx(r))
+            if kind == "deepcopy":
+                p2 = self.path.with_name("copy-" + self.path.name)
+                c = None
+                try:
+                    e.deepcopy(p2)
+                    c = self.EKO.read(p2)
+                    keys = sorted((_kidx(ep) for ep in c), key=str)
+                    out = []
+                    for ep, o in c.items():
+                        vid = [v for v in range(3) if _same(o, v)]
+                        out.append((_kidx(ep), vid[0] if vid else "unknown"))
+                    return ("copy", keys, sorted(out, key=str))
+                finally:
+                    if c is not None:
+                        c.close()
+                    try:
+                        os.unlink(p2)
+                    except OSError:
+                        pass
             if kind == "in":
                 return ("bool", K[op[1]] in e)
             if kind == "approx":
@@ -169,7 +231,12 @@ class Impl:
                     return ("none",)
                 return ("key", _kidx(r))
             if kind == "list":
-                return ("keys", sorted(_kidx(ep) for ep in e))
+                keys = sorted(_kidx(ep) for ep in e)
+                # the other spellings of "iterate the evolution points" must tell the same
+                eps = [(float(s), int(n)) for s, n in e]
+                if [(float(s), int(n)) for s, n in e.evolgrid] != eps or [float(m) for m in e.mu2grid] != [s for s, _ in eps]:
+                    return ("keys-inconsistent", eps, list(e.evolgrid), list(e.mu2grid))
+                return ("keys", keys)
             if kind == "items":
                 out = []
                 for ep, o in e.items():
@@ -177,11 +244,15 @@ class Impl:
                     out.append((_kidx(ep), vid[0] if vid else "unknown"))
                 return ("items", sorted(out))
             if kind == "reopen":
-                e.close()
+                if len(op) > 2 and op[2] == "with":
+                    with e:
+                        pass
+                else:
+                    e.close()
                 self.eko = self.EKO.read(self.path, readonly=(op[1] == "ro"))
                 return ("ok",)
         except Exception as exc:  # noqa
-            return ("raises", type(exc).__name__, str(exc)[:200])
+            return ("raises", type(exc).__name__, str(exc)[:200], _families(exc))
         raise ValueError(op)
 
     def canon(self):
@@ -210,14 +281,43 @@ class Impl:
             pass
 
 
+def _families(exc):
+    """Which of the documented error kinds an exception belongs to.
+
+    absent    : a key that is not there -- eko.io.inventory.LookupError ("Failure in content retrieval from inventory")
+                or the KeyError of a dictionary
+    ambiguous : EKO.approx documents `ValueError` "if multiple values are found in the neighbourhood"
+    readonly  : AccessConfigs.assert_writeable documents `ReadOnlyOperator`
+    """
+    from eko.io.access import ReadOnlyOperator
+    from eko.io.inventory import LookupError as InventoryLookupError
+
+    fam = []
+    if isinstance(exc, (InventoryLookupError, KeyError)):
+        fam.append("absent")
+    if isinstance(exc, ValueError):
+        fam.append("ambiguous")
+    if isinstance(exc, ReadOnlyOperator):
+        fam.append("readonly")
+    return fam
+
+
 def _compare(exp, got):
     """None if the observation agrees with the model's expectation, else a description."""
     if exp[0] == "any":
         return None
     if exp[0] == "raises":
-        return None if got[0] == "raises" else f"expected an error, got {got}"
+        if got[0] != "raises":
+            return f"expected an error, got {got}"
+        if exp[1] not in got[3]:
+            return f"expected the documented error for '{exp[1]}', got {got[1]}: {got[2]}"
+        return None
     if got[0] == "raises":
-        return f"expected {exp}, got exception {got[1:]}"
+        return f"expected {exp}, got exception {got[1:3]}"
+    if exp[0] == "copy":
+        g = (got[0], [str(a) for a in got[1]], sorted((str(a), str(b)) for a, b in got[2]))
+        x = (exp[0], [str(a) for a in exp[1]], sorted((str(a), str(b)) for a, b in exp[2]))
+        return None if g == x else f"expected {exp}, got {got}"
     if exp[0] == "items":
         g = sorted((str(a), str(b)) for a, b in got[1])
         x = sorted((str(a), str(b)) for a, b in exp[1])
@@ -227,8 +327,9 @@ def _compare(exp, got):
     return None if tuple(exp) == tuple(got) else f"expected {exp}, got {got}"
 
 
-def _sig(op, what):
-    return f"EKO-store/{op[0]}/{what}"
+def _sig(op, what, bad=""):
+    # an error of another class than the documented one is another defect than a wrong value
+    return f"EKO-store/{op[0]}/{what}" + ("/error-class" if bad.startswith("expected the documented error") else "")
 
 
 def evaluate(case):
@@ -246,7 +347,7 @@ def evaluate(case):
         got = impl.step(op)
         bad = _compare(exp, got)
         if bad:
-            res.fail(_sig(op, "observation"), f"history={hist_} op={op}: {bad}")
+            res.fail(_sig(op, "observation", bad), f"history={hist_} op={op}: {bad}")
         disk, cache = impl.canon()
         state = repr((model.mode, sorted(model.current.items()), sorted(model.persisted.items()), disk, cache))
         res.info = {"state": state}
@@ -266,7 +367,7 @@ def evaluate(case):
             e2, g2 = model.step(["get", k]), impl.step(["get", k])
             b2 = _compare(e2, g2)
             if b2:
-                res.fail(_sig(op, "content-get"), f"history={full} then get {k}: {b2}")
+                res.fail(_sig(op, "content-get", b2), f"history={full} then get {k}: {b2}")
                 return res
             e2, g2 = model.step(["in", k]), impl.step(["in", k])
             b2 = _compare(e2, g2)
@@ -284,6 +385,14 @@ def evaluate(case):
             if b2:
                 res.fail(_sig(op, "persist-" + probe[0]), f"history={full} then close+read, {probe}: {b2}")
                 return res
+        # the re-read store is asked key by key as well (lookup, context-manager read, membership)
+        for k in range(3):
+            for probe in (["get", k], ["in", k], ["ctxget", k]):
+                e2, g2 = model.step(probe), impl.step(probe)
+                b2 = _compare(e2, g2)
+                if b2:
+                    res.fail(_sig(op, "persist-" + probe[0], b2), f"history={full} then close+read, {probe}: {b2}")
+                    return res
         return res
     finally:
         impl.destroy()
@@ -295,12 +404,21 @@ def run(ctx):
     hist.bfs(ctx, ops, evaluate, depth, max_states=None)
     ctx.rule = (
         f"BFS over all histories of length <= {depth} from the alphabet of {len(ops)} operations "
-        "(set 3 keys x 3 values incl. err<->no-err overwrite, get, unload, in, approx on 4 queries, list, "
-        "items, unload-all, close+reopen ro/rw), histories extended only from states not seen before "
-        "(state = mode, model content, persisted content, operator files on disk, cache keys with loaded flag); "
-        "non-trivial = store non-empty after the step"
+        f"(set 3 keys x 3 values incl. err<->no-err overwrite, get, get through the operator context manager, unload, in, "
+        f"approx on {len(QUERIES)} queries with the default tolerance (exact, inside both close keys, inside one only, "
+        f"between 1e-6 and 1e-5, other nf at an equal and at a close scale), approx on {len(TOL_QUERIES)} queries with passed "
+        "rtol / atol (tighter than default, looser than default, atol only, tighter separating the close pair), list "
+        "(= iteration, evolgrid and mu2grid), items, unload-all, `del eko.operators`, close+reopen ro/rw by close() and "
+        "by the context manager, deepcopy to a second archive and reading that), histories extended only from states not "
+        "seen before (state = mode, model content, persisted content, operator files on disk, cache keys with loaded "
+        "flag); after every history: list, items, get / in per key, then close + re-read and again list, items, get / in / "
+        "context-manager get per key; non-trivial = store non-empty after the step"
     )
     ctx.assumptions += [
         "two keys within the approximate-lookup tolerance and one outside represent all key relations",
+        "expected approximate hits come from |q - k| <= atol + rtol |k| at equal nf; every query lies >= 10 % of the tolerance "
+        "away from its boundary, so the rounding of that inequality is not probed",
+        "error classes: absent key -> eko.io.inventory.LookupError or KeyError; ambiguous approx -> ValueError; "
+        "write on a read-only store -> eko.io.access.ReadOnlyOperator; unload of an absent key may do anything",
         "merged states have equal futures: the state key contains everything Inventory/EKO methods read (files, cache, flags)",
     ]
